@@ -438,6 +438,17 @@ func (e *End) Read(p []byte) (n int, err error) {
 
 var dumpNet = os.Getenv("SIM_DUMPNET") != ""
 
+// ReadFrom is part of what a *net.TCPConn offers (net/http's server and
+// transport use it when they copy a body to the connection). As there, an
+// error of the source comes back wrapped in a *net.OpError.
+func (e *End) ReadFrom(r io.Reader) (int64, error) {
+	n, err := io.Copy(struct{ io.Writer }{e}, r)
+	if err != nil && err != io.EOF {
+		err = &net.OpError{Op: "readfrom", Net: "tcp", Source: e.local, Addr: e.remote, Err: err}
+	}
+	return n, err
+}
+
 func (e *End) Write(p []byte) (int, error) {
 	if dumpNet {
 		fmt.Fprintf(os.Stderr, "%s W %q\n", e.Name(), p)
